@@ -35,6 +35,17 @@ impl Monitor for C11 {
                 return Err(viol("C11.too_many_farms", format!("{n} unexpired farms on {lp}, limit {}", cfg.max_concurrent_farms)));
             }
         }
+        // ---- a creation is never refused because one of the contract's own queries fails (another
+        // farm's end epoch the epoch manager cannot represent must not block the LP token)
+        if let Op::Fm { msg: FmMsg::ManageFarm { action: FarmAction::Create { params } }, .. } = &step.op {
+            // (the creation's own epochs are ordinary numbers: absurd ones may fail any way they like)
+            let sane = params.start_epoch.unwrap_or(0) < 1_000_000_000 && params.preliminary_end_epoch.unwrap_or(0) < 1_000_000_000;
+            if let Some(e) = super::util::internal_failure(out, step, pre).filter(|_| sane) {
+                if e.contains("Querier") || e.contains("panicked") {
+                    return Err(viol("C11.create_blocked_by_internal_error", format!("farm creation fails inside the contract: {e}")));
+                }
+            }
+        }
         // ---- farms change only through farm messages and claims
         let (sender, action, funds) = match &step.op {
             Op::Fm { sender, msg: FmMsg::ManageFarm { action }, funds } => (sender, action, funds),
